@@ -1,17 +1,20 @@
 package main
 
 import (
+	"fmt"
 	"go/token"
+	"go/types"
 
 	"golang.org/x/tools/go/ssa"
 )
 
 func init() {
 	register("C27", []string{"./sstable/...", "./objstorage"}, runC27)
-	propExplain["C27"] = "Decides the gating clause of C27: in block.Reader.doRead the bytes read are used (compression indicator, decompression, block metadata init, successful return) only through the nil-error edges of the read and of the checksum validation; every function of the sstable packages that validates a block checksum returns success only if the validation passed; a failed read is never put into the block cache as a value; the table footer's block handles are decoded only after the footer checksum matched (for formats that have one); raw object reads inside the sstable packages occur only in the listed owners. Does not decide checksum collision probability or legacy footers without a checksum."
+	propExplain["C27"] = "Decides the gating clause of C27: in block.Reader.doRead the bytes read are used (compression indicator, decompression, block metadata init, successful return) only through the nil-error edges of the read and of the checksum validation; every function of the sstable packages that validates a block checksum returns success only if the validation passed; a failed read is never put into the block cache as a value; the table footer's block handles are decoded only after the footer checksum matched (for formats that have one); raw object reads inside the sstable packages occur only in the listed owners. (K1) the one-block caches of the value fetchers (valblk.valueBlockFetcher, blob.cachedReader) record which block they hold only on the nil-error edge of that block's verified read, and the blob reader marks its block not-loaded before it replaces the buffer. Does not decide checksum collision probability or legacy footers without a checksum."
 }
 
 func runC27(c *Ctx) {
+	runC27K1(c)
 	validate := CallTo("blk.ValidateChecksum")
 	// C27.O1
 	if fn := c.Fn("C27.O1", "blk.(*Reader).doRead"); fn != nil {
@@ -150,4 +153,49 @@ func runC27(c *Ctx) {
 		return ImplCall(readable, "objstorage.Readable", "ReadAt").F(in) || ImplCall(rh, "objstorage.ReadHandle", "ReadAt").F(in)
 	}), "raw object reads only in the checksum-validating owners",
 		"blk.(*Reader).doRead", "blk.ReadRaw", "sst.(*Layout).Describe", "sst.formatColblkDataBlock*", "sst.(*RawColumnWriter).copyDataBlocks", "sst.(*Layout)*", "sst.(*Reader).Layout*", "sst.(*memReader).ReadAt", "sst.*Layout*")
+}
+
+// runC27K1: coherence of the one-block caches of the value fetchers. Both remember WHICH block
+// their buffer holds (a tag) so that the next fetch from the same block skips the read and its
+// checksum verification. The tag may name a block only once the (verified) read of that block
+// has succeeded; a tag set earlier survives a failed read and makes the next fetch serve bytes
+// of the previously loaded block, with a nil error.
+func runC27K1(c *Ctx) {
+	isConstBoolStore := func(f *types.Var, val bool) M {
+		return And(StoreTo(f), Pred(fmt.Sprintf("= %v", val), func(in ssa.Instruction) bool {
+			k, ok := in.(*ssa.Store).Val.(*ssa.Const)
+			return ok && k.Value != nil && k.Value.String() == fmt.Sprint(val)
+		}))
+	}
+	// sstable/valblk: valueBlockNum is the tag of valueBlock
+	if fn := c.Fn("C27.K1", "valblk.(*valueBlockFetcher).getValueInternal"); fn != nil {
+		tag := c.Field("C27.K1", "valblk.valueBlockFetcher.valueBlockNum")
+		read := And(MethodOn("ReadValueBlock", ""), argFromCall(-1, "getBlockHandle"))
+		fl := NewFlow(c.P).Ok("ok:value-block-read", read)
+		res := fl.Analyze(fn, emptyState())
+		c.noteFlow(fl)
+		if n := c.Require("C27.K1", res, StoreTo(tag), "the cached block number is updated only after that block was read successfully", []string{"ok:value-block-read"}); n == 0 {
+			c.Unresolved("C27.K1", "no store to valueBlockFetcher.valueBlockNum in getValueInternal")
+		}
+		if len(instrs(fn, read)) == 0 {
+			c.Unresolved("C27.K1", "the value-block read (ReadValueBlock of getBlockHandle's result) was not found in getValueInternal")
+		}
+	}
+	// sstable/blob: currentValueBlock.{loaded, virtualID} are the tag of currentValueBlock.buf
+	if fn := c.Fn("C27.K1", "blob.(*cachedReader).GetUnsafeValue"); fn != nil {
+		loaded := c.Field("C27.K1", "blob.cachedReader.currentValueBlock.loaded")
+		vid := c.Field("C27.K1", "blob.cachedReader.currentValueBlock.virtualID")
+		read := MethodOn("ReadValueBlock", "recv.r")
+		fl := NewFlow(c.P).Ok("ok:value-block-read", read).
+			After("tag-invalidated", isConstBoolStore(loaded, false)).
+			KillAfter("tag-invalidated", isConstBoolStore(loaded, true))
+		res := fl.Analyze(fn, emptyState())
+		c.noteFlow(fl)
+		n := c.Require("C27.K1", res, StoreTo(vid), "the cached block id is updated only after that block was read successfully", []string{"ok:value-block-read"})
+		n += c.Require("C27.K1", res, isConstBoolStore(loaded, true), "the block is marked loaded only after it was read successfully", []string{"ok:value-block-read"})
+		n += c.Require("C27.K1", res, read, "the previous block is marked not-loaded before its buffer is replaced", []string{"tag-invalidated"})
+		if n < 3 {
+			c.Unresolved("C27.K1", "tag stores / ReadValueBlock not found in cachedReader.GetUnsafeValue")
+		}
+	}
 }
